@@ -154,14 +154,21 @@ impl Stitch {
                         } else {
                             return Some(entry);
                         }
-                    } else if let Some(hunk) = index_hunks.next().await {
-                        if let Some(last_apath) = hunk.last().map(|entry| entry.apath.clone()) {
-                            self.last_apath = Some(last_apath);
-                        }
-                        *buffered_entries = hunk.into_iter().peekable();
-                        continue;
                     } else {
-                        State::AfterBand(*band_id)
+                        let next_hunk = index_hunks.next().await;
+                        // Hunks that can't be read are skipped, but not silently.
+                        for err in index_hunks.take_errors() {
+                            self.monitor.error(err);
+                        }
+                        if let Some(hunk) = next_hunk {
+                            if let Some(last_apath) = hunk.last().map(|entry| entry.apath.clone()) {
+                                self.last_apath = Some(last_apath);
+                            }
+                            *buffered_entries = hunk.into_iter().peekable();
+                            continue;
+                        } else {
+                            State::AfterBand(*band_id)
+                        }
                     }
                 }
                 State::BeforeBand(band_id) => {
